@@ -5,6 +5,7 @@
 From Coq Require Import QArith Qabs List Bool ZArith String.
 From IPV Require Import C18.Check C18.CheckProofs C18.Search C18.SearchProofs C18.Bits Gen.Gen_C18_bits C18.GenProofs.
 From IPV Require Import C18.Tidy C18.TidyProofs Gen.Gen_C18_tidy C18.TidyGen.
+From IPV Require Import C18.Setup Gen.Gen_C18_setup C18.SetupGen.
 Import ListNotations.
 
 (* ---------------------------------------------------------------- the verified checker (over Q) *)
@@ -131,3 +132,14 @@ Theorem gen_tidy_element_limit_reaches_every_valence_state :
     (forall r', In r' (run gen_tidy_primary_loop rows prim vals) -> fst r' <> prim -> In r' rows).
 Proof. exact (conj gen_tidy_loop_ok gen_tidy_reaches_every_state). Qed.
 Print Assumptions gen_tidy_element_limit_reaches_every_valence_state.
+
+(* ---------------------------------------------------------------- phase columns count atoms
+   inverse.cpp: setup_inverse, "mass_balance: phase data" — the entry written for token j of a candidate
+   phase's reaction (regenerated expression, Gen_C18_setup.v) is the reaction coefficient rc times the
+   number mc of atoms of the element per master species (N2, O2, H2: 2), so that the column counts ATOMS
+   like the solution and redox columns do; a master species with coef <= 0 (e-) counts once. *)
+Theorem gen_phase_column_entry_counts_atoms : forall rc mc : Q,
+  (0 < mc -> qeval gen_phase_column_entry rc mc == rc * mc)%Q /\
+  (mc <= 0 -> qeval gen_phase_column_entry rc mc == rc)%Q.
+Proof. exact gen_phase_column_entry_ok. Qed.
+Print Assumptions gen_phase_column_entry_counts_atoms.
